@@ -139,7 +139,7 @@ class FileResponse(StreamResponse):
         writer = await super().prepare(request)
         assert writer is not None
 
-        if NOSENDFILE or self.compression:
+        if NOSENDFILE or self.compression or self._chunked:
             return await self._sendfile_fallback(writer, fobj, offset, count)
 
         loop = request._loop
@@ -423,7 +423,8 @@ class FileResponse(StreamResponse):
 
         self.etag = etag_value
         self.last_modified = file_mtime
-        self.content_length = count
+        if not self._chunked:
+            self.content_length = count
 
         self._headers[hdrs.ACCEPT_RANGES] = "bytes"
 
